@@ -1212,6 +1212,17 @@ class UnitBuilder:
                     self.emit_type(*payload)
                 elif kind == "const":
                     self.emit_const(*payload)
+                elif kind == "plainfn":
+                    rel, name = payload
+                    src = self.source(rel)
+                    _, it = src.find_fn(None, name)
+                    self.cut(src, it, f"fn {name} (verbatim)")
+                    toks = strip_vis(it.toks)
+                    toks[0] = Tok(toks[0].kind, toks[0].text, toks[0].pos, "")
+                    o.text("pub ", kind="gen")
+                    o.toks(toks, src, f"fn {name}")
+                    o.text("\n")
+                    self.rep.rule("R12 whole function emitted verbatim (plain Rust mode)")
                 else:
                     raise Undecided(f"directive {kind} not supported in rust mode")
             self.rep.fns = self.fn_ranges
